@@ -14,140 +14,43 @@
 #define main poly_main_unused
 #include "poly.cc"
 #undef main
-#include <new>
 
-// every block carries a header: position in the list of live blocks + the number of the allocation request that created it
-struct Hdr { Hdr* prev; Hdr* next; long seq; long pad; };
-static Hdr live_list = { &live_list, &live_list, -1, 0 };
-static long live = 0, total = 0, fail_at = -1, seqno = 0; static bool counting = false, fired = false;
-static long bt_seq[64]; static int bt_n = 0; static long run_seq0 = 0;
-#include <execinfo.h>
-static inline void tick() { if (counting) { if (fail_at >= 0 && total == fail_at) { ++total; fired = true; throw std::bad_alloc(); } ++total; } }
-static void* my_alloc(size_t n) {
-  tick(); Hdr* h = (Hdr*) std::malloc(sizeof(Hdr) + (n ? n : 1)); if (!h) throw std::bad_alloc();
-  h->seq = seqno++; h->next = live_list.next; h->prev = &live_list; live_list.next->prev = h; live_list.next = h; ++live;
-  for (int i = 0; i < bt_n; ++i) if (bt_seq[i] == h->seq - run_seq0) { void* fr[40]; int k = backtrace(fr, 40); fprintf(stderr, "---- leaked block, allocation #%ld of the run, %zu bytes\n", h->seq - run_seq0, n); backtrace_symbols_fd(fr, k, 2); }
-  return h + 1;
-}
-static void my_free(void* p) { if (!p) return; Hdr* h = ((Hdr*) p) - 1; h->prev->next = h->next; h->next->prev = h->prev; --live; std::free(h); }
-void* operator new(size_t n) { return my_alloc(n); }
-void* operator new[](size_t n) { return my_alloc(n); }
-void operator delete(void* p) noexcept { my_free(p); }
-void operator delete[](void* p) noexcept { my_free(p); }
-void operator delete(void* p, size_t) noexcept { my_free(p); }
-void operator delete[](void* p, size_t) noexcept { my_free(p); }
-extern "C" void* g_malloc(size_t n) { return my_alloc(n); }
-extern "C" void* g_realloc(void* q, size_t, size_t n) {
-  if (!q) return my_alloc(n);
-  tick(); Hdr* h = ((Hdr*) q) - 1; Hdr* pv = h->prev; Hdr* nx = h->next;
-  Hdr* h2 = (Hdr*) std::realloc(h, sizeof(Hdr) + (n ? n : 1)); if (!h2) throw std::bad_alloc();
-  pv->next = h2; nx->prev = h2; return h2 + 1;
-}
-extern "C" void g_free(void* p, size_t) { my_free(p); }
-// before any static initializer of the library allocates a big number with the default functions
-__attribute__((constructor(101))) static void early_gmp() { mp_set_memory_functions(g_malloc, g_realloc, g_free); }
+#include "faultfw.hh"
 
-static int MODE = 0;   // 0 alloc, 1 abandon, 2 overflow (natural)
-static long ab_calls = 0, ab_at = -1;
-struct Abandoned : public Throwable { void throw_me() const { if (counting) { if (ab_at >= 0 && ab_calls == ab_at) { ++ab_calls; fired = true; throw *this; } ++ab_calls; } } };
-static Abandoned the_abandon;
-
-struct Res { std::vector<std::string> answers; std::vector<std::string> excs; std::string fin; int stop_at; std::string thrown; std::string op; };
-// runs the history on S; stops after the call in which the injected fault fired (or, mode overflow, after the first overflow_error)
-static void run_once(const std::vector<Op>& ops, Slot* S, Res& r) {
-  r.stop_at = -1; r.thrown = "none"; r.op = "";
-  for (size_t t = 0; t < ops.size(); ++t) {
-    const Op& o = ops[t]; Slot& d = S[o.dst]; Slot& s = S[o.src > 0 ? o.src : o.dst];
-    Out out; out.rb = false; out.ri = 0; std::string exc = ""; big = false; const char* ex = 0;
-    counting = true;
-    // (no allocation inside the handlers: the fault may be pending)
-    try { exec_op(o, S, d, s, out); }
-    catch (std::bad_alloc&) { ex = "bad_alloc"; } catch (Abandoned&) { ex = "abandoned"; }
-    catch (std::invalid_argument&) { ex = "invalid_argument"; } catch (std::length_error&) { ex = "length_error"; }
-    catch (std::domain_error&) { ex = "domain_error"; } catch (std::overflow_error&) { ex = "overflow_error"; }
-    catch (std::logic_error&) { ex = "logic_error"; } catch (std::runtime_error&) { ex = "runtime_error"; }
-    catch (std::exception&) { ex = "exception"; } catch (...) { ex = "unknown"; }
-    counting = false;
-    if (ex) exc = ex; else exc = out.exc;
-    if (fired || (MODE == 2 && exc == "overflow_error")) { r.stop_at = (int) t; r.thrown = (exc == "" || exc == "dead" || exc == "skipped") ? "none" : exc; r.op = o.op; return; }
-    std::ostringstream a; a << exc << "|" << out.rb << "|" << out.ri << "|" << out.obs << "|" << out.rr << "|" << out.rc;
-    r.answers.push_back(a.str()); r.excs.push_back(exc);
+struct PolySys {
+  std::vector<Op> ops; Slot S[4]; Out out;
+  size_t size() const { return ops.size(); }
+  const char* name(size_t t) const { return ops[t].op.c_str(); }
+  void step(size_t t) { const Op& o = ops[t]; out = Out(); out.rb = false; out.ri = 0; big = false; exec_op(o, S, S[o.dst], S[o.src > 0 ? o.src : o.dst], out); }
+  std::string soft_exc() const { return out.exc; }
+  std::string answer() const { std::ostringstream a; a << out.rb << "|" << out.ri << "|" << out.obs << "|" << out.rr << "|" << out.rc; return a.str(); }
+  std::string final_state() { std::string f; for (int i = 1; i <= 3; ++i) f += desc(S[i]); return f; }
+  // every object: assignment, use after assignment, invariant, copy, destruction.  The object is NOT inspected before the assignment: its value
+  // after an exception is unspecified, and on the unchanged tree OK() itself can crash on a polyhedron whose minimization was interrupted.
+  void recover(bool& usable, bool& okafter) {
+    usable = true; okafter = true;
+    try {
+      for (int i = 1; i <= 3; ++i) if (S[i].p) {
+        Polyhedron* p = S[i].p; unsigned n = p->space_dimension();
+        if (S[i].nnc) { NNC_Polyhedron u(n); *static_cast<NNC_Polyhedron*>(p) = u; } else { C_Polyhedron u(n); *static_cast<C_Polyhedron*>(p) = u; }
+        if (!p->is_universe()) usable = false;
+        if (n > 0) { p->add_constraint(Variable(0) >= 1); if (p->is_empty() || p->is_universe()) usable = false; p->add_constraint(Variable(0) <= 0); if (!p->is_empty()) usable = false; }
+        if (!p->OK()) okafter = false;
+        if (S[i].nnc) { NNC_Polyhedron c(*static_cast<NNC_Polyhedron*>(p)); (void) c.minimized_generators(); if (!c.OK()) okafter = false; }
+        else { C_Polyhedron c(*static_cast<C_Polyhedron*>(p)); (void) c.minimized_generators(); if (!c.OK()) okafter = false; }
+      }
+    } catch (...) { usable = false; }
+    for (int i = 0; i <= 3; ++i) { delete S[i].p; S[i].p = 0; }
+    out = Out();
   }
-  std::string f; for (int i = 1; i <= 3; ++i) f += desc(S[i]); r.fin = f;
-}
-static void wipe(Slot* S) { for (int i = 0; i <= 3; ++i) { delete S[i].p; S[i].p = 0; } }
-// every object: assignment, use after assignment, invariant, copy, destruction.  The object is NOT inspected before the assignment: its value
-// after an exception is unspecified, and on the unchanged tree OK() itself can crash on a polyhedron whose minimization was interrupted.
-static bool g_okbefore = true;
-static void recover(Slot* S, bool& usable, bool& okafter) {
-  usable = true; okafter = true; g_okbefore = true;
-  try {
-    for (int i = 1; i <= 3; ++i) if (S[i].p) {
-      Polyhedron* p = S[i].p; unsigned n = p->space_dimension();
-      if (S[i].nnc) { NNC_Polyhedron u(n); *static_cast<NNC_Polyhedron*>(p) = u; } else { C_Polyhedron u(n); *static_cast<C_Polyhedron*>(p) = u; }
-      if (!p->is_universe()) usable = false;
-      if (n > 0) { p->add_constraint(Variable(0) >= 1); if (p->is_empty() || p->is_universe()) usable = false; p->add_constraint(Variable(0) <= 0); if (!p->is_empty()) usable = false; }
-      if (!p->OK()) okafter = false;
-      if (S[i].nnc) { NNC_Polyhedron c(*static_cast<NNC_Polyhedron*>(p)); (void) c.minimized_generators(); if (!c.OK()) okafter = false; }
-      else { C_Polyhedron c(*static_cast<C_Polyhedron*>(p)); (void) c.minimized_generators(); if (!c.OK()) okafter = false; }
-    }
-  } catch (...) { usable = false; }
-  wipe(S);
-}
-struct Pod { int stop_at; char thrown[40]; char op[48]; bool fired, usable, okafter, okbefore, same; };
-static void cp(char* d, size_t n, const std::string& s) { size_t k = s.size() < n - 1 ? s.size() : n - 1; memcpy(d, s.data(), k); d[k] = 0; }
-// one run with fault position k (k < 0: undisturbed), recovery included; every heap object of the run is gone on return
-static Pod one(const std::vector<Op>& ops, Slot* S, long k, const Res* ref) {
-  Pod q; Res r; fired = false; total = 0; ab_calls = 0; fail_at = -1; ab_at = -1;
-  if (k >= 0) { if (MODE == 0) fail_at = k; else if (MODE == 1) ab_at = k; }
-  run_once(ops, S, r);
-  fail_at = -1; ab_at = -1; q.fired = fired; fired = false;
-  recover(S, q.usable, q.okafter); q.okbefore = g_okbefore;
-  q.stop_at = r.stop_at; cp(q.thrown, sizeof q.thrown, r.thrown); cp(q.op, sizeof q.op, r.op);
-  if (ref && false) {}
-
-  q.same = ref ? (r.stop_at == ref->stop_at && r.fin == ref->fin && r.answers == ref->answers) : true;
-  return q;
-}
+};
 
 static void run_history_f(const std::vector<std::string>& lines, int fd) {
   vj::install_terminate();
-  if (MODE == 1) abandon_expensive_computations = &the_abandon;
-  vj::Writer W(fd); Slot S[4]; W.buf.reserve(1 << 16); g_lean = true;
+  vj::Writer W(fd); g_lean = true;
   { std::istringstream is(lines[0]); std::string t; is >> t >> LIM; if (LIM <= 0) LIM = 1000000; }
-  std::vector<Op> ops; for (size_t t = 1; t < lines.size(); ++t) ops.push_back(parse(lines[t]));
-  W.line("{\"e\":\"Reset\"}");
-  for (int w = 0; w < 3; ++w) (void) one(ops, S, -1, 0);
-  Res ref; long N;
-  { total = 0; ab_calls = 0; fail_at = -1; ab_at = -1; fired = false; run_once(ops, S, ref); N = (MODE == 1) ? ab_calls : total;
-    bool us, ok; recover(S, us, ok);
-    vj::Obj h; h.s("e", "Hist").i("mode", MODE).i("n", N).i("ops", ops.size()).i("stop", ref.stop_at).s("thrown", ref.thrown).s("op", ref.op).b("usable", us).b("okafter", ok).b("big", false);
-    W.line(h.str()); }
-  if (MODE == 2) {
-    // natural faults: every run stops at the library's first overflow_error (if any)
-    long l0 = live; Pod a = one(ops, S, -1, &ref); long lk = live - l0;
-    long l1 = live; Pod b = one(ops, S, -1, &ref); long lk2 = live - l1;
-    vj::Obj e; e.s("e", "Fault").i("mode", MODE).i("k", 0).i("n", 1).s("op", a.op).i("opi", a.stop_at).s("thrown", a.thrown).s("refexc", "").b("fired", a.stop_at >= 0)
-      .i("leak", lk).i("leak2", lk2).b("usable", a.usable && b.usable).b("okafter", a.okafter && b.okafter).b("okbefore", a.okbefore && b.okbefore).b("same", a.same && b.same).b("big", false);
-    W.line(e.str());
-    return;
-  }
-  long stride = N > 240 ? (N + 239) / 240 : 1;
-  for (long k = 0; k < N; k += stride) {
-    long live0 = live; long s0 = seqno; Pod q = one(ops, S, k, 0); long leak = live - live0, leak2 = 0;
-    if (leak != 0) {
-      if (getenv("FAULT_BT")) {   // diagnosis: list the blocks of that run that are still alive and show where the repetition allocates them
-        bt_n = 0; for (Hdr* h = live_list.next; h != &live_list; h = h->next) if (h->seq >= s0 && bt_n < 64) bt_seq[bt_n++] = h->seq - s0;
-        fprintf(stderr, "==== fault position %ld in call %d (%s): %ld block(s) still alive\n", k, q.stop_at, q.op, leak);
-        run_seq0 = seqno;
-      }
-      long l1 = live; (void) one(ops, S, k, 0); leak2 = live - l1; bt_n = 0; }
-    Pod u = one(ops, S, -1, &ref);
-    const std::string& rx = (q.stop_at >= 0 && (size_t) q.stop_at < ref.excs.size()) ? ref.excs[q.stop_at] : std::string("");
-    vj::Obj e; e.s("e", "Fault").i("mode", MODE).i("k", k).i("n", N).s("op", q.op).i("opi", q.stop_at).s("thrown", q.thrown).s("refexc", rx).b("fired", q.fired)
-      .i("leak", leak).i("leak2", leak2).b("usable", q.usable).b("okafter", q.okafter).b("okbefore", q.okbefore).b("same", u.same && u.usable && u.okafter).b("big", false);
-    W.line(e.str());
-  }
+  PolySys sys; for (size_t t = 1; t < lines.size(); ++t) sys.ops.push_back(parse(lines[t]));
+  fault_history(sys, W);
 }
 
 int main(int argc, char** argv) {
